@@ -22,6 +22,7 @@ import Fir.Props.C08
 import Fir.Props.C09
 import Fir.Props.C11
 import Fir.Proofs.BoundsLemmas
+import Fir.Proofs.IdealFilterLemmas
 
 namespace Fir.C03
 open Fir Fir.Bounds Fir.Gen
@@ -84,5 +85,13 @@ example : Bounds.window (fun x => x < 3 || x ≥ 7) 1 9 = (3, 4, 6) := by decide
 example : tempExtent [(5, 3), (2, 4), (4, 6)] = (2, 10) := by decide
 example : clip16_index (2 ^ 31 - 1) 0 = 1279 ∧ clip16_index (-(2 ^ 31)) 0 = 0 := by decide
 example : precisionOf (fun p => 2 ^ (p + 1)) (2 ^ 15) 22 = 14 := by decide
+
+open Fir.Spec in
+/-- C03 (ideal): every ideal window lies inside the source -/
+theorem idealGeom_in_source (inSize : Nat) (in0 in1 : ℚ) (outSize : Nat) (support : ℚ) (adaptive : Bool) (o : Nat) :
+    let g := idealGeom inSize in0 in1 outSize support adaptive o
+    g.2.1 = 0 ∨ g.1 + g.2.1 ≤ inSize :=
+  Fir.Proofs.idealGeom_in_source inSize in0 in1 outSize support adaptive o
+
 
 end Fir.C03
